@@ -84,3 +84,33 @@ Theorem C10_imtlg : forall n J J' P thr, wfmat n J -> J <> [] -> Permutation J J
   exists P', is_pinv (length J') (gramR J') P' /\ agg_imtlg RN P' thr J' = agg_imtlg RN P thr J.
 Proof. exact agg_imtlg_Permutation. Qed.
 Print Assumptions C10_imtlg.
+
+(* ---- added: ConFIG, MGDA (no exact ties at the argmin), CAGrad, Aligned-MTL ---- *)
+From TJ.proofs Require Import C03Proofs C18Proofs C08Proofs C11Proofs MgdaProofs PublishedProofs ImpartialProofs ScalingProofs ConfigProofs SpectralProofs.
+Theorem C10_config : forall J p B pref, wfmat (length J) B -> is_perm (length J) p ->
+  (forall w, pref = Some w -> length w = length J) ->
+  agg_config RN (config_pinv_perm p B) (option_map (permR p) pref) (perm_rows p J) =
+  agg_config RN B pref J.
+Proof. exact agg_config_perm. Qed.
+Print Assumptions C10_config.
+Theorem C10_mgda : forall n J J' eps iters, wfmat n J -> J <> [] -> Permutation J J' ->
+  mgda_no_ties iters (gramR J) eps (mean_weights RN (length J)) ->
+  agg_mgda RN eps iters J' = agg_mgda RN eps iters J.
+Proof. exact agg_mgda_Permutation. Qed.
+Print Assumptions C10_mgda.
+Theorem C10_cagrad : forall n J p s ne c w_opt, wfmat n J -> J <> [] ->
+  is_perm (length J) p -> length w_opt = length J ->
+  agg_cagrad RN s ne c (permR p w_opt) (perm_rows p J) = agg_cagrad RN s ne c w_opt J.
+Proof. exact agg_cagrad_perm. Qed.
+Print Assumptions C10_cagrad.
+Theorem C10_cagrad_contract_transfers : forall m Gn p c w_opt, length Gn = m -> wfmat m Gn ->
+  is_perm m p -> cagrad_opt Gn c w_opt -> cagrad_opt (permM p Gn) c (permR p w_opt).
+Proof. exact cagrad_opt_perm. Qed.
+Print Assumptions C10_cagrad_contract_transfers.
+Theorem C10_aligned : forall n J p lam Vt tol pref, wfmat n J -> J <> [] ->
+  is_perm (length J) p -> length lam = length J ->
+  (forall w, pref = Some w -> length w = length J) ->
+  agg_aligned RN lam (map (permR p) Vt) tol (option_map (permR p) pref) (perm_rows p J) =
+  agg_aligned RN lam Vt tol pref J.
+Proof. exact agg_aligned_perm. Qed.
+Print Assumptions C10_aligned.
